@@ -442,6 +442,17 @@ int main(int argc, char **argv) {
                 const std::string &op = f[k];
                 if (op == "dump" || op == "nchars+" || op == "-" || op == "jtrace") continue;
                 if (op == "ltrace") { out += " | L " + (g_loops.empty() ? std::string("-") : g_loops) + " | G " + std::to_string(gr_seg_n_cinfo(seg)) + ":" + g_growth; continue; }
+                if (op == "colldump") {       // collision attributes per slot (C17): limit rectangle, accumulated offset, flags
+                    graphite2::Segment *gs = static_cast<graphite2::Segment *>(seg);
+                    std::string x = " | K";
+                    size_t st3 = 0;
+                    for (const gr_slot *q = gr_seg_first_slot(seg); q && ++st3 < 100000; q = gr_slot_next_in_segment(q)) {
+                        graphite2::SlotCollision *cl = gs->collisionInfo(static_cast<const graphite2::Slot *>(q));
+                        if (!cl) { x += " -"; continue; }
+                        x += " " + fnum(cl->limit().bl.x) + "," + fnum(cl->limit().bl.y) + "," + fnum(cl->limit().tr.x) + "," + fnum(cl->limit().tr.y) + "," + fnum(cl->offset().x) + "," + fnum(cl->offset().y) + "," + std::to_string((int)cl->flags());
+                    }
+                    out += x; continue;
+                }
                 if (op == "redump") { out += " | " + dump(seg, face, font, true); continue; }     // the dump again, after the preceding ops
                 if (op == "posdump") {
                     // inputs and outputs of final positioning, for the C15 correspondence (Model/PosModel.v): design-unit inputs of every
